@@ -124,8 +124,14 @@ class EFLRItem:
     def _compute_copy_number(self) -> int:
         """Compute copy number of this ELFRItem, i.e. how many other objects of the same type and name there are."""
 
-        items_with_the_same_name = filter(lambda o: o.name == self.name, self.parent.get_all_eflr_items())
-        return len(list(items_with_the_same_name)) - 1
+        # all sets of this type in the logical file - an object is identified by type, origin, copy number and name,
+        # so same-named items in differently named sets of one type must not get the same copy number
+        sets = list(getattr(self.parent, 'sibling_sets', {}).values())
+        if not any(s is self.parent for s in sets):
+            sets.append(self.parent)
+
+        items_with_the_same_name = [o for s in sets for o in s.get_all_eflr_items() if o.name == self.name]
+        return len(items_with_the_same_name) - 1
 
     @classmethod
     def _check_parent(cls, parent: "EFLRSet") -> None:
